@@ -246,22 +246,37 @@ SwapLeaf(pr, l) == IF l \in pr THEN CHOOSE m \in pr : m # l ELSE l
 SwapSet(pr, S) == {SwapLeaf(pr, l) : l \in S}
 ImageTree(pr, t) == {<<SwapSet(pr, x[1]), SwapSet(pr, x[2]), SwapSet(pr, x[3])>> : x \in t}
 IdentPairs(s) == {pr \in SUBSET (1..s.n) : Cardinality(pr) = 2 /\ \E g \in s.ident : pr \subseteq g}
-SwapAligned(s) ==
+\* (the reference depends on the chain order, so does the predicate)
+SwapAlignedOrd(s, ord) ==
     \A pr \in IdentPairs(s) : \A l \in Spinning(s) :
-        ImageTree(pr, OTree(s.n, Ref(s, Ident(Len(s.chains)), l)))
-            = OTree(s.n, Ref(s, Ident(Len(s.chains)), SwapLeaf(pr, l)))
+        ImageTree(pr, OTree(s.n, Ref(s, ord, l))) = OTree(s.n, Ref(s, ord, SwapLeaf(pr, l)))
+SwapAligned(s) == SwapAlignedOrd(s, Ident(Len(s.chains)))
 
 \* without identical particles, or without spinning finals, there is nothing to align
 SwapAlignedTrivial == (st.ident = {} \/ Spinning(st) = {}) => SwapAligned(st)
 
-\* (structures with identical particles are exercised by the frame family only)
-Book(s) == Valid(s) /\ Len(s.chains) >= 2 /\ Spinning(s) # {} /\ s.ident = {}
+Book(s) == Valid(s) /\ Len(s.chains) >= 2 /\ Spinning(s) # {}
 Catalogue2 == {s \in Catalogue : Book(s)}
 
 \* admissibility (calibrated by probe, DESIGN C02): align_ref = center_mass takes its
 \* reference axes from the momenta as supplied, so it needs events in the parent rest
 \* frame or center_mass = TRUE; r_boost = FALSE is outside the property and not an option here
 Admissible(o, fr) == o.ar = "cm" => (fr = "rest" \/ o.cm)
+\* Expected-verdict table.  With declared identical particles and a spinning final the
+\* default reference (rule 1, per chain slot) is only meaningful where the exchange maps
+\* it onto itself (known finding C01 identical-particles:helicity-reference-not-swap-
+\* symmetric); the parent-rest-frame reference (align_ref = center_mass, rule 2) is
+\* exchange symmetric by construction.  A state is JUDGEABLE (its density must equal that
+\* of every other judgeable state of the same structure and frame) iff it is admissible and
+\* either nothing needs aligning across the exchange, or align_ref = center_mass, or the
+\* rule-1 reference under the state's chain order is exchange symmetric.
+NeedsAlign(s) == s.ident # {} /\ Spinning(s) # {}
+Judgeable(s, ord, o, fr) ==
+    Admissible(o, fr) /\ (NeedsAlign(s) => (o.ar = "cm" \/ SwapAlignedOrd(s, ord)))
+\* the baseline of the comparisons: declared order and default options where judgeable,
+\* else declared order with align_ref = center_mass and center_mass = TRUE
+CmOpt == [ar |-> "cm", rz |-> TRUE, cm |-> TRUE, ol |-> FALSE]
+BaseOpt(s) == IF NeedsAlign(s) /\ ~SwapAligned(s) THEN CmOpt ELSE NoOpt
 
 InitBook ==
     /\ st \in Catalogue2
@@ -293,7 +308,9 @@ RefRule == \A l \in 1..st.n :
 \* non-vacuity theorem: the rule depends on the order exactly for the flagged structures
 SensitiveIffRefMoves == Sensitive(st) <=> \E p \in Perms(Len(st.chains)) : RefDiffers(st, p)
 \* the default options are admissible in both frames, so the baseline of every comparison exists
-BaselineAdmissible == Admissible(NoOpt, frame)
+BaselineAdmissible == Judgeable(st, Ident(Len(st.chains)), BaseOpt(st), frame)
+\* without identical particles the table is the admissibility table
+JudgeableTrivial == ~NeedsAlign(st) => (Judgeable(st, order, opt, frame) <=> Admissible(opt, frame))
 
 --------------------------------------------------------------------------
 (* tables for the harness                                                   *)
@@ -341,6 +358,12 @@ PostBook ==
           structures |-> [k \in 1..Len(fam) |->
               [s |-> AsRec(fam[k]), sensitive |-> Sensitive(fam[k]),
                orphans |-> Orphans(fam[k]), multis |-> Multis(fam[k]),
-               refs |-> {<<p, [l \in 1..fam[k].n |-> Ref(fam[k], p, l)], RefDiffers(fam[k], p)>> :
-                            p \in Perms(Len(fam[k].chains))}]]])
+               needsalign |-> NeedsAlign(fam[k]),
+               baseopt |-> LET b == BaseOpt(fam[k]) IN <<b.ar, b.rz, b.cm, b.ol>>,
+               refs |-> {<<p, [l \in 1..fam[k].n |-> Ref(fam[k], p, l)], RefDiffers(fam[k], p), SwapAlignedOrd(fam[k], p)>> :
+                            p \in Perms(Len(fam[k].chains))},
+               judgeable |-> IF NeedsAlign(fam[k])
+                             THEN {x \in Perms(Len(fam[k].chains)) \X {"none", "cm"} \X BOOLEAN \X BOOLEAN \X BOOLEAN \X {"rest", "lab"} :
+                                     Judgeable(fam[k], x[1], [ar |-> x[2], rz |-> x[3], cm |-> x[4], ol |-> x[5]], x[6])}
+                             ELSE {}]]])
 ==========================================================================
